@@ -2,7 +2,7 @@
 # run_on_mutant.sh <patch.diff> <check ids…> : apply to /repo, run the checks, always revert.
 P="$1"; shift
 cd /repo && git status --short | grep -q . && { echo "/repo not clean"; exit 2; }
-(git -C /repo apply --3way "$P" 2>/dev/null || git -C /repo apply "$P") || { echo "PATCH DOES NOT APPLY"; exit 2; }
+git -C /repo apply "$P" || { echo "PATCH DOES NOT APPLY"; git -C /repo checkout -f HEAD -- . ; exit 2; }
 git -C /repo reset -q
 for c in "$@"; do (cd /verif && ./check $c ${TIER:+--tier $TIER} | grep -E "VIOLATION|KNOWN|tier=" ); done
 git -C /repo checkout -- . ; git -C /repo status --short
